@@ -136,6 +136,13 @@ type Machine struct {
 	concVals      map[*Term]uint64
 	exited        bool
 	curFrame      *frame
+	inMain        bool
+	heldLocks     map[string]int
+	globalAcc     map[string]*globalAccess
+	stderr        []str
+	flagStr       map[string]value
+	flagBool      map[string]value
+	flagFuncs     []flagFunc
 	onces         map[string]bool
 
 	methCache map[methKey]*ssa.Function
@@ -159,7 +166,43 @@ func (m *Machine) noteGlobalWrite(g *ssa.Global, fr *frame) {
 			return
 		}
 		m.globalWrites[g.String()+" at "+fr.pos()]++
+		m.noteGlobalAccess(g, true)
 	}
+}
+
+type globalAccess struct {
+	written bool
+	locked  bool // all accesses so far held at least one common lock
+	locks   map[string]bool
+	n       int
+}
+
+// noteGlobalAccess maintains, per package-level variable of the repository, the intersection of the
+// locksets of all its accesses on this path (Eraser's lockset refinement).
+func (m *Machine) noteGlobalAccess(g *ssa.Global, write bool) {
+	if m.epoch == 0 || g.Pkg == nil || !isRepoPkg(g.Pkg.Pkg.Path()) || strings.HasPrefix(g.Name(), "init$guard") {
+		return
+	}
+	name := g.String()
+	a := m.globalAcc[name]
+	if a == nil {
+		a = &globalAccess{locks: map[string]bool{}, locked: true}
+		for k := range m.heldLocks {
+			a.locks[k] = true
+		}
+		m.globalAcc[name] = a
+	} else {
+		for k := range a.locks {
+			if m.heldLocks[k] == 0 {
+				delete(a.locks, k)
+			}
+		}
+	}
+	a.n++
+	if write {
+		a.written = true
+	}
+	a.locked = len(a.locks) > 0
 }
 
 func isRepoPkg(path string) bool {
@@ -625,6 +668,11 @@ func (m *Machine) resetPathState() {
 	m.concVals = map[*Term]uint64{}
 	m.exited = false
 	m.curFrame = nil
+	m.inMain = false
+	m.heldLocks = nil
+	m.globalAcc = map[string]*globalAccess{}
+	m.stderr = nil
+	m.flagStr, m.flagBool, m.flagFuncs = nil, nil, nil
 	m.onces = nil
 	m.reverseMaps = m.ex.opts.ReverseMaps
 }
@@ -740,4 +788,11 @@ func (m *Machine) renderUnderModel(v value) string {
 		return m.renderUnderModel(v.v)
 	}
 	return valString(v)
+}
+
+type exitPanic struct{ code int }
+
+type flagFunc struct {
+	name string
+	fn   value
 }
